@@ -21,7 +21,7 @@ func VerifH_C16_api_failing_call() {
 
 	// one failing call
 	var ferr error
-	switch vrt.Choice(18) {
+	switch vrt.Choice(20) {
 	case 0:
 		_, ferr = fw.CreateDataset("/nope/d", Int32, []uint64{1}) // missing parent
 	case 1:
@@ -67,6 +67,11 @@ func VerifH_C16_api_failing_call() {
 		_, ferr = fw.CreateDataset("/o", Int32, []uint64{1<<32 + 1, 1 << 32}) // element count wraps
 	case 17:
 		_, ferr = fw.CreateDataset("/o", Int32, []uint64{1<<62 + 1}, WithChunkDims([]uint64{1024}))
+	case 18:
+		// a chunk of 2 GiB: the reader refuses chunks above 1 GiB, and the stored size of a chunk has 32 bits
+		_, ferr = fw.CreateDataset("/o", Int32, []uint64{1 << 29}, WithChunkDims([]uint64{1 << 29}))
+	case 19:
+		_, ferr = fw.CreateDataset("/o", Int32, []uint64{1 << 20, 1 << 20}, WithChunkDims([]uint64{1 << 16, 1 << 16})) // 16 GiB chunk
 	}
 	vrt.Assert(ferr != nil, "invalid-call-returns-error")
 
